@@ -232,6 +232,28 @@ def run_job(spec):
                 continue
             real_c = plain_call(spec["module"], spec["harness"], skel, cx)
             if not same(sym_c, real_c):
+                # the model and the real code disagree on this input.  If the REAL outcome itself breaks the property (independent
+                # oracle on the real run) that is a reproduced violation whatever the model says; otherwise the encoding is wrong.
+                why = None
+                try:
+                    why = H.oracle(skel, cx, real_c)
+                except Exception:
+                    why = None
+                if why is not None:
+                    hit = None
+                    for k in known_all:
+                        try:
+                            if region_eval(k["region"], cx, skel) is True:
+                                hit = k
+                                break
+                        except Exception:
+                            pass
+                    if hit is not None:
+                        res["known_hits"].append(dict(id=hit["id"], inputs=cx, why=why[:300]))
+                    else:
+                        res["violations"].append(dict(obligation="witness-replay", inputs=cx, output=jsonable(real_c),
+                                                      why=("[real run of a path witness; the symbolic model diverges here] " + why)[:1000]))
+                        break
                 res["witness_mismatch"].append(dict(inputs=cx, symbolic=jsonable(sym_c), real=jsonable(real_c)))
                 continue
             res["witnesses_ok"] += 1
